@@ -180,6 +180,9 @@ impl Scenario for Rl {
         10 * self.scale
     }
     fn init(&self, w: &mut World) -> X {
+        // (timeouts 60 ms and Duration::MAX: an inner instance that is asked for readiness a second
+        // time before it was called answers with an error)
+        w.inner.lock().unwrap().second_ready_check_fails = self.timeout == 60 || self.timeout == WAIT_FOR_EVER;
         // (timeouts 40 and 100 ms: a no-op listener is registered for every event type)
         let with_listeners = self.timeout == 40 || self.timeout == 100;
         let layer = (if self.from_preset { RateLimiterLayer::burst(3, 4) } else { RateLimiterLayer::builder() })
